@@ -9,6 +9,7 @@ import numpy as np
 
 import netlib
 from common import Stream, clist, cnat, main
+from netlib import Pin, lk
 
 
 def gen_star(rng, tier):
@@ -137,6 +138,180 @@ class SplitStream(Stream):
                 "sol,sts=c12.build_ordered(d); print([len(s.structures) for s in sol.split()])\n")
 
 
+# ---------------------------------------------------------------------------------------------
+# parametric circuits: each part must answer like the original for every assignment incl. none
+
+
+def gen_param_case(rng, tier):
+    nparts = rng.randint(2, 3)
+    parts = []
+    pnames = []
+    for pi in range(nparts):
+        chain = []
+        for _ in range(rng.randint(1, 3)):
+            k = rng.choice(["ps", "wg", "const"])
+            if k == "ps":
+                name = rng.choice(["PS", f"Q{pi}", "R"])
+                chain.append({"k": "ps", "name": name})
+                pnames.append(name)
+            elif k == "wg":
+                chain.append({"k": "wg", "L": rng.randint(1, 40) / 4.0, "n": 1.0 + rng.randint(0, 8) / 8.0})
+            else:
+                z = netlib.rand_matrix(rng, 2, 2, 2)
+                chain.append({"k": "const", "S": netlib.m2j(z)})
+        parts.append(chain)
+    pnames = sorted(set(pnames))
+    d = {"parts": parts, "defaults": {}, "adds": [], "assign": []}
+    if rng.random() < 0.7:
+        d["defaults"]["wl"] = 1.0 + rng.randint(1, 32) / 32.0
+    for nm in pnames:
+        if rng.random() < 0.5:
+            d["defaults"][nm] = rng.randint(-8, 8) / 8.0
+    if pnames and rng.random() < 0.5:
+        old = rng.choice(pnames)
+        d["adds"].append({"old": old, "new": "X", "scale": rng.choice([2, 3]), "default": rng.randint(-4, 4) / 8.0})
+        d["defaults"].pop(old, None)
+    visible = [n for n in pnames if n not in [a["old"] for a in d["adds"]]] + [a["new"] for a in d["adds"]] + ["wl"]
+    for _ in range(2):
+        kw = {n: rng.randint(-8, 8) / 8.0 + (1.5 if n == "wl" else 0.0) for n in visible if rng.random() < 0.5}
+        d["assign"].append(kw)
+    d["assign"].append({})
+    d["late_default"] = rng.random() < 0.3      # a default of the original changed after split(): parts must not follow
+    return d
+
+
+def build_param(d):
+    with lk.Solver() as sol:
+        ends = []
+        for pi, chain in enumerate(d["parts"]):
+            prev = None
+            first = None
+            for blk in chain:
+                if blk["k"] == "ps":
+                    st = lk.PhaseShifter(param_name=blk["name"]).put()
+                elif blk["k"] == "wg":
+                    st = lk.Waveguide(blk["L"], blk["n"]).put()
+                else:
+                    st = lk.Model(pin_dic={Pin("a0"): 0, Pin("b0"): 1}, Smatrix=netlib.j2m(blk["S"]).reshape(2, 2)).put()
+                if prev is not None:
+                    lk.connect(prev.pin["b0"], st.pin["a0"])
+                else:
+                    first = st
+                prev = st
+            lk.Pin(f"i{pi}").put(first.pin["a0"])
+            lk.Pin(f"o{pi}").put(prev.pin["b0"])
+            ends.append((f"i{pi}", f"o{pi}"))
+        for a in d["adds"]:
+            sc = a["scale"]
+            lk.add_param(a["old"], (lambda sc: (lambda X=a["default"]: sc * X))(sc), default={a["new"]: a["default"]})
+        lk.update_default_params(dict(d["defaults"]))
+    return sol, ends
+
+
+def run_param(d):
+    """returns (expected values from the original solver, observed values from the parts)"""
+    sol, ends = build_param(d)
+    if "wl" not in d["defaults"]:
+        for kw in d["assign"]:
+            kw.setdefault("wl", 1.25)
+    expected = []
+    for kw in d["assign"]:
+        r = sol.solve(**dict(kw))
+        for (i, o) in ends:
+            for a in (i, o):
+                for b in (i, o):
+                    expected.append(complex(r.get_A(a, b)))
+    parts = sol.split()
+    if len(parts) != len(ends):
+        raise ValueError("split returned %d parts for %d chains" % (len(parts), len(ends)))
+    if d.get("late_default"):
+        sol.default_params["wl"] = 7.0
+        for n in list(sol.default_params):
+            if n != "wl":
+                sol.default_params[n] = 0.375
+    by_pin = {}
+    for p in parts:
+        r0 = p.solve(**dict(d["assign"][0]))
+        for pin in r0.pin_dic:
+            by_pin[pin.name] = p
+    observed = []
+    for kw in d["assign"]:
+        for (i, o) in ends:
+            p = by_pin[i]
+            if by_pin[o] is not p:
+                raise ValueError("the two ends of a chain are in different parts")
+            kw2 = {k: v for k, v in kw.items()}
+            r = p.solve(**kw2)
+            if sorted(x.name for x in r.pin_dic) != sorted([i, o]):
+                raise ValueError("a part owns other pins than its chain's")
+            for a in (i, o):
+                for b in (i, o):
+                    observed.append(complex(r.get_A(a, b)))
+    return expected, observed
+
+
+class SplitParams(Stream):
+    name = "split_params"
+    imports = "Field Matrix Base Kernel Corr"
+    case_type = "val_case"
+    verdict_fn = "val_verdict"
+    shard_size = 60
+
+    def generate(self, rng, tier):
+        return [gen_param_case(rng, tier) for _ in range(120 if tier == "quick" else 1500)]
+
+    def run(self, d):
+        from common import cf, cvec
+        d = copy.deepcopy(d)
+        try:
+            expected, _ = run_param(copy.deepcopy(d))
+        except Exception:
+            return "{| vc_expected := []; vc_obs := Obs [] |}"       # the original itself cannot answer: not a case
+        try:
+            _, observed = run_param(copy.deepcopy(d))
+            obs = "Obs " + cvec(observed, cf)
+        except Exception:
+            obs = "Raised"
+        return "{| vc_expected := %s; vc_obs := %s |}" % (cvec(expected, cf), obs)
+
+    def classify(self, d):
+        return "parts%d/adds%d/def%d%s" % (len(d["parts"]), len(d["adds"]), len(d["defaults"]),
+                                          "/late" if d.get("late_default") else "")
+
+    def shrink(self, d):
+        out = []
+        if len(d["parts"]) > 2:
+            for i in range(len(d["parts"])):
+                e = copy.deepcopy(d)
+                del e["parts"][i]
+                used = {b["name"] for ch in e["parts"] for b in ch if b["k"] == "ps"}
+                e["adds"] = [a for a in e["adds"] if a["old"] in used]
+                out.append(e)
+        for i, ch in enumerate(d["parts"]):
+            if len(ch) > 1:
+                for j in range(len(ch)):
+                    e = copy.deepcopy(d)
+                    del e["parts"][i][j]
+                    used = {b["name"] for c2 in e["parts"] for b in c2 if b["k"] == "ps"}
+                    e["adds"] = [a for a in e["adds"] if a["old"] in used]
+                    out.append(e)
+        if len(d["assign"]) > 1:
+            for i in range(len(d["assign"])):
+                e = copy.deepcopy(d)
+                del e["assign"][i]
+                out.append(e)
+        if d.get("late_default"):
+            e = copy.deepcopy(d)
+            e["late_default"] = False
+            out.append(e)
+        return out
+
+    def py_repro(self, d):
+        return ("import sys; sys.path.insert(0,'/verif/harness'); import c12, json\n"
+                f"d=json.loads({json.dumps(d)!r})\n"
+                "e,o=c12.run_param(d); print(e); print(o)\n")
+
+
 TRUSTED = [
     "Coq 8.16.1 kernel + vm_compute", "Bignums/Uint63 primitives for the executed instance BQCf",
     "hand-written model Split.v tied to /repo by this correspondence run (sampled)",
@@ -144,8 +319,8 @@ TRUSTED = [
 ]
 
 if __name__ == "__main__":
-    main("C12", [SplitStream()],
+    main("C12", [SplitStream(), SplitParams()],
          level_text="props/C12.v; the tie runs split() of /repo on random graphs (trees, cycles, multi-links, isolated "
                     "structures) in random declaration orders, compares the partition as a set of sets with the model of the "
-                    "incremental union and every returned solver's matrix with the model's solve of that part.",
+                    "incremental union and every returned solver's matrix with the model's solve of that part; parametric circuits (renamed phase shifters, waveguides, add_param, solver defaults): every part must answer like the original for several assignments including none, also after the original's defaults are changed later.",
          trusted_base=TRUSTED, assumptions=["matrix theorems conditional on the model returning Ok"])
